@@ -628,9 +628,10 @@ def progset_ops(R, case, P, pset, instr, rng):
                 prog.target_comps = [ords[0]]
                 prog.spend_data.insert(None, 1000.0)
                 prog.unit_cost.insert(None, 3.0)
-                key = list(ps.covouts.keys())[int(rng.integers(0, len(ps.covouts)))]
-                ps.covouts[key].progs[nm] = float(rng.uniform(0, 1))
-                ps.covouts[key].update_outcomes()
+                if ps.covouts:  # (no effect left to attach the new program to after the parameters were removed: it is added without one)
+                    key = list(ps.covouts.keys())[int(rng.integers(0, len(ps.covouts)))]
+                    ps.covouts[key].progs[nm] = float(rng.uniform(0, 1))
+                    ps.covouts[key].update_outcomes()
             elif op == "remove_program":
                 if len(ps.programs) < 2:
                     continue
